@@ -1,10 +1,10 @@
 """C08 — see harness/props/dev_ctl.py (event level, shared with the other control-endpoint properties) and
 harness/props/c07_cyc.py (cycle level, run through `extra_checks`)."""
 from harness.common import framework
-from harness.props import dev_ctl, c07_cyc
+from harness.props import dev_ctl, c07_cyc, c07
 
 PROP = "C08"
-LEAN_MODULES = ["LunaVerif.Props.C08"] + dev_ctl.CYC_MODULES
+LEAN_MODULES = ["LunaVerif.Props.C08"] + dev_ctl.CYC_MODULES + c07.STREAM_MODULES
 DRIVER = dev_ctl.DRIVER
 REQUIRED_THEOREMS = ["address_changes_only_on_status_ack", "configuration_changes_only_on_status_ack", "old_address_until_commit", "foreign_ack_does_not_commit", "setup_latched_only_by_setup_transaction", "bus_reset_clears", "commit_returns_to_idle",
                      "handshake_forwarded_only_for_own_in_token", "foreign_handshake_is_invisible",
@@ -12,7 +12,7 @@ REQUIRED_THEOREMS = ["address_changes_only_on_status_ack", "configuration_change
                      "address_strobe_returns_to_idle", "cycle_refines_event", "cycle_refines_event_run"]
 RULE = dev_ctl.RULE + dev_ctl.CYC_RULE
 ASSUMPTIONS = dev_ctl.ASSUMPTIONS
-PARTIAL = dev_ctl.PARTIAL["C08"]
+PARTIAL = c07.PARTIAL_STREAMS + dev_ctl.PARTIAL["C08"][len(dev_ctl.PARTIAL_COMMON):]
 
 
 def gen_cases(tier, rng):
